@@ -225,6 +225,17 @@ func vGenSeq(r *kit.Rand, idx int) *vHistory {
 		h.MockPlans = []vMockPlan{{VRAMMB: 0}}
 		n = r.Range(3, 7)
 	}
+	cpu := false
+	if !h.Spread && r.Chance(1, 6) {
+		// CPU inference under system-memory pressure: every request asks for num_gpu 0, each runner holds 1000 MB
+		// of system memory and only one or two fit, while the loaded-model limit (4) is never the reason to evict
+		h.Profile = "c11/sequential-cpu"
+		cpu = true
+		h.MaxLoaded = 4
+		h.Models = r.Range(3, 4)
+		h.MockPlans = []vMockPlan{{VRAMMB: 1000}}
+		h.CPUFreeMB = 1000 * r.Range(1, 2)
+	}
 	var script []vAction
 	for i := 1; i <= n; i++ {
 		a := vAction{Op: "req", Req: i, Model: r.Intn(h.Models), NumCtx: 8, NumGPU: -1, KeepAliveUs: -1, LoadMode: "ok"}
@@ -253,6 +264,9 @@ func vGenSeq(r *kit.Rand, idx int) *vHistory {
 		}
 		if len(script) > 0 && r.Chance(1, 3) {
 			a.Model = script[len(script)-1].Model // stay on the model of the previous request
+		}
+		if cpu {
+			a.NumGPU = 0
 		}
 		a.KeepOpen = r.Chance(1, 4)
 		a.PingFails = r.Chance(1, 10)
@@ -335,6 +349,10 @@ func vRunSeq(t testing.TB, h *vHistory, rep *kit.Report) (vs []vViol, skipped in
 			expectStart = true
 			if maxLoaded > 0 && len(loaded) >= maxLoaded {
 				expectClose = append(expectClose, -1)
+			} else if h.CPUFreeMB > 0 && len(loaded) > 0 && len(loaded) >= h.CPUFreeMB/h.MockPlans[0].VRAMMB {
+				// no system memory left for one more CPU runner: exactly one (idle) runner has to go
+				expectClose = append(expectClose, -1)
+				rep.Count("seq_cpu_memory_evictions_predicted", 1)
 			}
 		}
 		before := w.log.snapshot()
